@@ -194,36 +194,63 @@ def run(res):
 
     # 5. implementation-side monitor, independent of the model: two real threads, one preemption at every
     #    acquisition point of the first request, every second request; everything must complete
-    n_sweep = 200 if quick else 6000
+    #    Prioritised: first every preemption point of every pair inside the channel life-cycle family (plus the
+    #    requests the static check names), then pairs that lock the same channel slot, then a seeded random fill.
+    cta = gen_locks.check_then_act(classes, progs, "M")
+    focus = sorted({x["request"] for x in cta})
+    n_sweep = 1800 if quick else 12000
+    nshards = min(8, max(1, lib.NCPU // 2))
     sweep = {"races": 0, "completed": 0, "blocked_then_completed": 0, "program_changed": 0, "panicked": 0,
              "unpreparable": 0, "serializable": 0, "not_serializable": 0, "sequential_unavailable": 0,
-             "stuck": 0, "total_schedules": 0, "sample": None}
-    odd = []
-    frm, stuck_reports = 0, []
-    while len(stuck_reports) < 4:
-        p = subprocess.run([exe, "sweep", "--seed", str(res.seed), "--n", str(n_sweep), "--tier", res.tier, "from=%d" % frm],
-                           stdout=subprocess.PIPE, stderr=subprocess.PIPE, text=True, errors="replace", timeout=3000)
-        sw, rc = None, None
-        for line in p.stdout.splitlines():
-            if line.startswith("@@SWEEP "):
-                sw = json.loads(line[8:])
-            elif line.startswith("@@RACE "):
-                rc = json.loads(line[7:])
-        if sw is None:
-            raise lib.Fail("locks sweep did not report:\n" + p.stderr[-2000:])
-        for k in ("completed", "blocked_then_completed", "program_changed", "panicked", "unpreparable", "serializable",
-                  "not_serializable", "sequential_unavailable"):
-            sweep[k] += sw[k]
-        odd += sw.get("odd", [])
-        sweep["total_schedules"] = sw["total"]
-        sweep["sample"] = sweep["sample"] or sw.get("sample")
-        sweep["races"] = sw["next"]
-        if not sw["aborted"]:
-            break
-        sweep["stuck"] += 1
-        stuck_reports.append(rc)
-        frm = sw["next"]
+             "stuck": 0, "total_schedules": 0, "tiers": None, "selected": 0, "sample": None, "focus": focus}
+    odd, stuck_reports = [], []
+
+    def run_shard(sh):
+        frm, out = 0, []
+        while len([o for o in out if o[1] is not None]) < 3:
+            p = subprocess.run([exe, "sweep", "--seed", str(res.seed), "--n", str(n_sweep), "--tier", res.tier,
+                                "from=%d" % frm, "shard=%d/%d" % (sh, nshards)] + (["focus=" + ",".join(focus)] if focus else []),
+                               stdout=subprocess.PIPE, stderr=subprocess.PIPE, text=True, errors="replace", timeout=3000)
+            sw, rc = None, None
+            for line in p.stdout.splitlines():
+                if line.startswith("@@SWEEP "):
+                    sw = json.loads(line[8:])
+                elif line.startswith("@@RACE "):
+                    rc = json.loads(line[7:])
+                elif line.startswith("@@SELFDEADLOCK "):
+                    rc = {"outcome": "self-deadlock", "spec": [json.loads(line[15:])["request"]], "threads": [],
+                          "report": json.loads(line[15:])}
+            if sw is None and rc is None:
+                raise lib.Fail("locks sweep did not report:\n" + p.stderr[-2000:])
+            out.append((sw, rc))
+            if sw is None or not sw["aborted"]:
+                break
+            frm = sw["next"]
+        return out
+    from concurrent.futures import ThreadPoolExecutor
+    with ThreadPoolExecutor(max_workers=nshards) as ex:
+        shard_results = list(ex.map(run_shard, range(nshards)))
+    for out in shard_results:
+        for sw, rc in out:
+            if sw is not None:
+                for k in ("completed", "blocked_then_completed", "program_changed", "panicked", "unpreparable", "serializable",
+                          "not_serializable", "sequential_unavailable"):
+                    sweep[k] += sw[k]
+                odd += sw.get("odd", [])
+                sweep["total_schedules"] = sw["total"]
+                sweep["tiers"] = sw["tiers"]
+                sweep["selected"] = sw["selected"]
+                sweep["sample"] = sweep["sample"] or sw.get("sample")
+            if rc is not None:
+                sweep["stuck"] += 1
+                stuck_reports.append(rc)
+        sweep["races"] += max([sw["next"] for sw, _ in out if sw is not None] or [0])
     for rc in stuck_reports:
+        if rc["outcome"] == "self-deadlock":
+            sd = rc["report"]
+            res.violation("%s never completes: it holds %s and takes %s again" % (sd["request"], ", ".join(sd["holds"]), sd["lock"]),
+                          {"domain": "locks-sweep", "report": sd}, has_input=True)
+            continue
         t = rc["threads"]
         what = "; ".join("thread %d (%s) holds %s and waits for %s" % (
             x["thread"], x["request"], ", ".join(x["holds"]), x["waits_for"]) for x in t if not x["finished"])
@@ -276,6 +303,7 @@ def run(res):
     cov.update({
         "evaluations": len(progs) + len(replays) + len([l for l in listed if l["replay"]]) + sweep["races"],
         "sweep": sweep,
+        "map_check_then_act_requests": cta,
         "distinct_nontrivial": len(shapes),
         "programs": len(progs),
         "rule": "one fresh node (MemoryKVVStore persister, ManualClock; stub channel, two ready funded channels; per request the extra "
@@ -286,7 +314,12 @@ def run(res):
                 "locks at once; distinct by event sequence. Races: for each unlisted lock-order cycle (shortest first, quick: 6) up to "
                 "3 (thorough 8) choices of requests that meet in the same lock instances are run on real threads. Sweep (monitor): "
                 "schedules (P, k, Q) = request P paused right after its k-th acquisition while request Q runs on a second real "
-                "thread, then P resumed; quick: 200 of them chosen by the seed, thorough: 6000; all must complete, and replies + final "
+                "thread, then P resumed; pause points: right after each acquisition and right before an acquisition that follows a "
+                "release (between two critical sections). Order: (1) all points of all pairs inside the channel life-cycle family "
+                "acting on the same channel ids (new/setup/forget channel, heartbeat pruning, funding signature, persist_all) plus "
+                "the requests the static check-then-act test names, (2) pairs that lock the same channel slot with a commitment "
+                "update among them (seeded rotation), (3) seeded random fill; quick: the first 1800 (all of tier 1), thorough: 12000; "
+                "run on 8 processes. All must complete, and replies + final "
                 "state (every stored record without versions, every channel's in-memory enforcement state; order-insensitive) "
                 "must equal those of P;Q or of Q;P run sequentially.",
         "samples": [{"request": sample["name"], "outcome": sample["outcome"],
